@@ -112,21 +112,32 @@ Proof.
     cbn in W2. cbn [count_leading]. apply negb_true_iff in W2. rewrite W2. reflexivity.
 Qed.
 
-Lemma parse_year_lex y rest :
-  wf_year y = true -> year_len_ok y ->
-  parse_year (lex_year y ++ 45%N :: rest) = Some (val_year y, 45%N :: rest).
+Definition rest_nondigit (rest : str) : Prop :=
+  match rest with [] => True | c :: _ => py_isdigit c = false end.
+
+Lemma span_digits_rest ds rest :
+  all_digits ds = true -> rest_nondigit rest -> span py_isdigit (ds ++ rest) = (ds, rest).
 Proof.
-  intros W Hlen. unfold wf_year in W. apply andb_true_iff in W as [D W].
+  intros D R. destruct rest as [|c r].
+  - rewrite app_nil_r. apply span_all. apply forallb_isdigit_of_digits; exact D.
+  - apply span_app_stop; [apply forallb_isdigit_of_digits; exact D|exact R].
+Qed.
+
+Lemma parse_year_lex_gen y rest :
+  wf_year y = true -> year_len_ok y -> rest_nondigit rest ->
+  parse_year (lex_year y ++ rest) = Some (val_year y, rest).
+Proof.
+  intros W Hlen HR. unfold wf_year in W. apply andb_true_iff in W as [D W].
   destruct y as [neg ds]. unfold year_len_ok in Hlen. cbn [y_neg y_digits] in *.
   assert (L4 : (4 <= length ds)%nat).
   { apply orb_true_iff in W as [W|W]; [apply Nat.eqb_eq in W; lia|].
     apply andb_true_iff in W as [W _]. apply Nat.ltb_lt in W. lia. }
   assert (Hraw : forall tl0, (length (ds ++ tl0) <? 4)%nat = false).
   { intros tl0. rewrite app_length. apply Nat.ltb_ge. lia. }
-  assert (Hspan : span py_isdigit (skipn 4 (ds ++ 45%N :: rest)) = (skipn 4 ds, 45%N :: rest)).
+  assert (Hspan : span py_isdigit (skipn 4 (ds ++ rest)) = (skipn 4 ds, rest)).
   { rewrite skipn_app. replace (4 - length ds)%nat with 0%nat by lia. rewrite skipn_O.
-    apply span_app_stop; [apply forallb_isdigit_of_digits, all_digits_skipn, D | exact not_isdigit_45]. }
-  assert (Hfirst : firstn 4 (ds ++ 45%N :: rest) = firstn 4 ds).
+    apply span_digits_rest; [apply all_digits_skipn, D | exact HR]. }
+  assert (Hfirst : firstn 4 (ds ++ rest) = firstn 4 ds).
   { rewrite firstn_app. replace (4 - length ds)%nat with 0%nat by lia. rewrite firstn_O. apply app_nil_r. }
   assert (Hne : ds <> []) by (destruct ds; [cbn in L4; lia|discriminate]).
   unfold parse_year, lex_year, val_year. cbn [y_neg y_digits].
@@ -137,11 +148,16 @@ Proof.
     assert (Hc : N.eqb c 45 = false).
     { rewrite E in D. cbn in D. apply andb_true_iff in D as [Dc _]. apply is_ascii_digit_range in Dc.
       apply N.eqb_neq. lia. }
-    replace (ds ++ 45%N :: rest) with (c :: (r ++ 45%N :: rest)) by (rewrite E; reflexivity).
-    rewrite Hc. replace (c :: (r ++ 45%N :: rest)) with (ds ++ 45%N :: rest) by (rewrite E; reflexivity).
+    replace (ds ++ rest) with (c :: (r ++ rest)) by (rewrite E; reflexivity).
+    rewrite Hc. replace (c :: (r ++ rest)) with (ds ++ rest) by (rewrite E; reflexivity).
     rewrite Hraw, Hspan, Hfirst, firstn_skipn.
     rewrite py_int_digits by assumption. rewrite year_lz_ok by assumption. reflexivity.
 Qed.
+
+Lemma parse_year_lex y rest :
+  wf_year y = true -> year_len_ok y ->
+  parse_year (lex_year y ++ 45%N :: rest) = Some (val_year y, 45%N :: rest).
+Proof. intros W L. apply parse_year_lex_gen; [exact W|exact L|exact not_isdigit_45]. Qed.
 
 (* ---- fractional seconds ---------------------------------------------- *)
 Definition rest_ok (rest : str) : Prop :=
